@@ -20,4 +20,8 @@ VARIANTS = [
          old="            mode.preview = config[\"preview\"]\n", new="            mode.preview = True\n"),
     dict(prop=P, name="twin-mode-local-config", expect="silent", file=FM,
          old="        if \"preview\" in config:\n            mode.preview = config[\"preview\"]\n", new="        if \"preview\" in config:\n            mode.preview = bool(config[\"preview\"])\n"),
+    dict(prop=P, name="pyproject-searched-from-cwd (F30 regression)", expect="violation", rule="R-MODE-TABLE", file="_format.py",
+         old="    pyproject_path = find_pyproject_toml((str(path),))\n", new="    pyproject_path = find_pyproject_toml((), path)\n"),
+    dict(prop=P, name="twin-pyproject-via-dash-source", expect="silent", file="_format.py",
+         old="    pyproject_path = find_pyproject_toml((str(path),))\n", new="    pyproject_path = find_pyproject_toml((\"-\",), str(path))\n"),
 ]
